@@ -253,7 +253,7 @@ def catchment_roundtrip(ctx, gridmod, ncases):
         inl = None if rng.random() < 0.5 else sorted(set(int(v) for v in rng.integers(0, nr * nc, size=int(rng.integers(1, 3)))))
         try:
             cat.delineate_area(o, inl, nval=nr * nc + 2)
-        except ValueError:
+        except Exception:
             continue
         if len(cat.idxcells_area) == 0:
             continue
